@@ -5,6 +5,7 @@ package font
 import (
 	"encoding/binary"
 	"errors"
+	"unicode"
 
 	"github.com/go-text/typesetting/font/opentype/tables"
 )
@@ -384,7 +385,23 @@ func (s cmap6or10) Lookup(r rune) (GID, bool) {
 
 type cmap12 []tables.SequentialMapGroup
 
-func newCmap12(cm tables.CmapSubtable12) cmap12 { return cm.Groups }
+func newCmap12(cm tables.CmapSubtable12) cmap12 { return sanitizeGroups(cm.Groups) }
+
+// sanitizeGroups returns a copy of [groups] restricted to the Unicode
+// code space : a code above U+10FFFF is not a rune.
+func sanitizeGroups(groups []tables.SequentialMapGroup) []tables.SequentialMapGroup {
+	out := make([]tables.SequentialMapGroup, 0, len(groups))
+	for _, g := range groups {
+		if g.StartCharCode > unicode.MaxRune {
+			continue
+		}
+		if g.EndCharCode > unicode.MaxRune {
+			g.EndCharCode = unicode.MaxRune
+		}
+		out = append(out, g)
+	}
+	return out
+}
 
 type cmap12Iter struct {
 	data cmap12
@@ -432,7 +449,7 @@ func (s cmap12) Lookup(r rune) (GID, bool) {
 
 type cmap13 []tables.SequentialMapGroup
 
-func newCmap13(cm tables.CmapSubtable13) cmap13 { return cm.Groups }
+func newCmap13(cm tables.CmapSubtable13) cmap13 { return sanitizeGroups(cm.Groups) }
 
 type cmap13Iter struct {
 	data cmap13
